@@ -6,12 +6,6 @@ Require PonyV.Model.C07Corr.
 (* PrimFloat model of the SQLite timedelta storage; C07FloatSweep holds the larger exhaustive sweeps (built with the cone, ~2.5 min once) *)
 Require PonyV.Model.C07Float PonyV.Proofs.C07Float PonyV.Proofs.C07FloatSweep.
 
-(* SQLite date attributes: date(999, 12, 31) is written as '999-12-31' (strftime does not pad the year) and read back as that string *)
-Theorem C07_date_below_1000_refuted : date_text_pads_year = false ->
-  valid_date (mk_date 999 12 31) /\ reload_date (mk_date 999 12 31) = RStr [57; 57; 57; 45; 49; 50; 45; 51; 49].
-Proof. exact date_below_1000_refuted. Qed.
-Print Assumptions C07_date_below_1000_refuted.
-
 (* Decimal(.., 2): 1.239 stays 1.239 in the writing session, later sessions read 1.24 *)
 Theorem C07_decimal_unrounded_refuted :
   dec_reload 2 (1239, -3) = (124, -2) /\ dec_eqb (dec_reload 2 (1239, -3)) (1239, -3) = false.
